@@ -174,6 +174,8 @@ def lean_str(s):
 
 def lean_expr(e):
     k = e[0]
+    if k == "ref":            # reference to an earlier generated Lean definition (let-style chains)
+        return e[1]
     if k == "var":
         return f"(.var {lean_str(e[1])})"
     if k == "nat":
@@ -224,6 +226,8 @@ def py_eval(e, env):
     k = e[0]
     if k == "var":
         return env[e[1]]
+    if k == "ref":
+        return env["@" + e[1]]
     if k == "nat":
         return float(e[1])
     if k == "dec":
